@@ -733,7 +733,8 @@ def check_C12(ctx):
             rep.oracle_fail('== is not symmetric', b, [i, j])
         if what in ('same', 'respelled') and b.impl[i] != 'true':
             rep.oracle_fail('numerically equal constructions compare unequal', b, [i])
-        if what == 'mutated' and b.impl[i] != 'false' and sx.to_sx(e) != sx.to_sx(f):
+        if what == 'mutated' and b.impl[i] != 'false' and sx.to_sx(e) != sx.to_sx(f) and b.model[i] == 'false':
+            # (a swap of two operands that are numerically equal, 2 and 2.0, changes the spelling only: the model says so)
             rep.oracle_fail('expressions differing in one place compare equal', b, [i])
         if b.impl[x] != 'ok':
             rep.oracle_fail('equality/hash law broken on the implementation: %s' % b.impl[x], b, [x])
